@@ -498,9 +498,11 @@ def vary_op(rng, f, types, ids, maxpay):
             g["v"] = sorted(rng.sample(range(1, maxpay + 2), min(maxpay + 1, rng.randint(1, 3))))
         return g
     op = rng.choice(["!=", "in"])
+    if k == "id" and f["v"] == ODD_IDS[2]:
+        return f       # an id whose prefix is another type's: the model's optimiser knows `=` on id only (design note)
     g["op"] = op
     if op == "in":
-        pool = types if k == "type" else (ids if k == "id" else [f["v"], "other-value"])
+        pool = types if k == "type" else ([i for i in ids if i != ODD_IDS[2]] if k == "id" else [f["v"], "other-value"])
         g["v"] = sorted(set(rng.sample(pool, min(len(pool), rng.randint(1, 2))) + ([f["v"]] if rng.random() < 0.5 else [])))
     return g
 
@@ -960,7 +962,7 @@ def detect_mode(impl_w):
 
 def check(run):
     quick = run.tier == "quick"
-    n_cases = 450 if quick else 3000
+    n_cases = 450 if quick else 1800
     max_adds = 10 if quick else 40
     run.coverage["rule"] = (
         "histories of 1..%d add/load calls (objects, dictionaries, lists, nested lists, Bundle objects, dictionary "
